@@ -115,6 +115,7 @@ def run(ctx):
     # NumPy sweep incl. strings, nullable, traced
     n = 400 if ctx.tier == "quick" else 3000
     cs = families.cast_cases(rnd, n)
+    cs += families.call_update_call(rnd, cs, 60 if ctx.tier == "quick" else 400)
     family.evaluate(ctx, cs, want=("oracle", "traced"))
     ctx.sample({"pair": rows[100][:2], "eager": rows[100][2], "observed": rows[100][3]})
     ctx.sample({"impl": cs[0]["impl"], "x": cs[0]["inputs"]["x"]})
